@@ -328,7 +328,7 @@ impl MqttState {
             if let Some(topic) = self.topic_alises.get(&alias) {
                 topic.clone_into(&mut publish.topic);
             } else {
-                self.handle_protocol_error()?;
+                return self.handle_protocol_error();
             };
         }
 
